@@ -12,7 +12,6 @@
     LineMatches env line       the entry parses and matches the current contents of the named file
     AllGood env files          every checkfile opens, every read_line yields text, every entry matches
     WellFormed files           read_line never yields "" before end of file (true of every real reader)
-    Processable l              l ≠ "" and the parser does not panic on l
     lineVerdict / allEvs / countFailed      verdict, output lines and failure count, entry by entry
 -/
 import B3.B3sum.Proofs
@@ -81,8 +80,7 @@ theorem hash_exit_iff (results : List Bool) : runHashExit results = 0 ↔ ∀ r 
 /-! ## check_exit_iff -/
 
 /-- `b3sum --check` exits 0 if and only if every given checkfile can be read as text and every
-entry of every checkfile parses and matches the current contents of the file it names. (Any other
-exit status is 1, or 101 when the parser panicked.) -/
+entry of every checkfile parses and matches the current contents of the file it names. -/
 theorem check_exit_iff (env : Env) (files : List CheckSrc) (wf : WellFormed files) :
     (runCheckMain env files).exit = 0 ↔ AllGood env files := by
   unfold runCheckMain
@@ -93,7 +91,7 @@ example : (runCheckMain demoEnv [.ok [.ok goodLine, .ok goodLine]]).exit = 0 ∧
     (runCheckMain demoEnv [.ok [.ok goodLine, .ok (hexEncode hashA ++ "  y\n".toList)]]).exit = 1 ∧
     (runCheckMain demoEnv [.ok [.ok goodLine], .error "No such file or directory (os error 2)"]).exit = 1 ∧
     (runCheckMain demoEnv [.ok [.ok goodLine, .ok "garbage\n".toList]]).exit = 1 ∧
-    (runCheckMain demoEnv [.ok [.ok (panicLine ++ ['\n'])]]).exit = 101 := by decide
+    (runCheckMain demoEnv [.ok [.ok (nonAsciiHashLine ++ ['\n']), .ok goodLine]]).exit = 1 := by decide
 
 /-- the checkfile reader used by the process-level prediction never yields an empty line -/
 theorem readLines_wellFormed (contents : List UInt8) : ∀ l, Except.ok l ∈ readLines contents → l ≠ [] := by
@@ -132,49 +130,22 @@ theorem readLines_wellFormed (contents : List UInt8) : ∀ l, Except.ok l ∈ re
     subst he
     exact hne (strictDecode_eq_nil hs)
 
+/-- every other exit status is 1 (the parser cannot panic, so 101 does not occur) -/
+theorem check_exit_zero_or_one (env : Env) (files : List CheckSrc) :
+    (runCheckMain env files).exit = 0 ∨ (runCheckMain env files).exit = 1 :=
+  runCheck_exit_01 env files _
+
+example : (runCheckMain demoEnv [.error "Permission denied (os error 13)", .ok [.ok goodLine]]).exit = 1 := by decide
+
 /-! ## check_continues -/
 
-/- FULL STATEMENT (false): whatever else is in the checkfiles, every entry is still checked — in
-   particular a matching entry is reported `<name>: OK` (unless --quiet). -/
-theorem check_continues_false :
-    ¬ ∀ (env : Env) (files : List CheckSrc) (lines : List ReadLine) (l : Str),
-        WellFormed files → Except.ok lines ∈ files → Except.ok l ∈ lines → LineMatches env l →
-        env.quiet = false → ∃ name : String, Ev.out (name ++ ": OK") ∈ (runCheckMain env files).evs := by
-  intro h
-  -- witness 1: an entry whose hash field is `aa…aé` (64 bytes, 63 characters) comes first
-  have wf : WellFormed [Except.ok [Except.ok (panicLine ++ ['\n']), Except.ok goodLine]] := by
-    intro lines hl l hl2
-    simp at hl; subst hl
-    simp at hl2
-    rcases hl2 with e | e <;> subst e <;> decide
-  obtain ⟨name, hn⟩ := h demoEnv [.ok [.ok (panicLine ++ ['\n']), .ok goodLine]]
-    [.ok (panicLine ++ ['\n']), .ok goodLine] goodLine wf (by simp) (by simp) goodLine_matches rfl
-  have : (runCheckMain demoEnv [.ok [.ok (panicLine ++ ['\n']), .ok goodLine]]).evs = [] := by decide
-  rw [this] at hn
-  cases hn
-
-/- The same full statement also fails without any panic: a `read_line` error (a line that is not
-   valid UTF-8) or a checkfile that cannot be opened ends the whole run. -/
-theorem check_continues_false_io :
-    ¬ ∀ (env : Env) (files : List CheckSrc) (lines : List ReadLine) (l : Str),
-        WellFormed files → Except.ok lines ∈ files → Except.ok l ∈ lines → LineMatches env l →
-        env.quiet = false → ∃ name : String, Ev.out (name ++ ": OK") ∈ (runCheckMain env files).evs := by
-  intro h
-  have wf : WellFormed [Except.ok [Except.error "stream did not contain valid UTF-8", Except.ok goodLine]] := by
-    intro lines hl l hl2
-    simp at hl; subst hl
-    simp at hl2
-    subst hl2; decide
-  obtain ⟨name, hn⟩ := h demoEnv [.ok [.error "stream did not contain valid UTF-8", .ok goodLine]]
-    [.error "stream did not contain valid UTF-8", .ok goodLine] goodLine wf (by simp) (by simp) goodLine_matches rfl
-  simp [runCheckMain, runCheck, checkLines] at hn
-
-/-- Strongest true version: if every checkfile can be read as text and the parser panics on no
-entry, the run processes EVERY entry of EVERY checkfile in order: its output is the concatenation
-of the per-entry outputs (followed by the WARNING line if anything failed), the failure counter is
-the (saturating) number of failing entries, and the exit status is 1 iff some entry failed.  -/
-theorem check_continues_partial (env : Env) (files : List (List Str))
-    (h : ∀ ls ∈ files, ∀ l ∈ ls, Processable l) :
+/-- For all checkfiles that can be read as UTF-8 text — any mix of good, stale, missing-file and
+malformed entries, with LF, CRLF or no terminator — the run processes EVERY entry of EVERY checkfile
+in order: its output is the concatenation of the per-entry outputs (followed by the WARNING line if
+anything failed), the failure counter is the (saturating) number of failing entries, and the exit
+status is 1 iff some entry failed, 0 otherwise.  (`l ≠ []`: `read_line` returns the empty string
+only at end of file, see `readLines_wellFormed`.) -/
+theorem check_continues (env : Env) (files : List (List Str)) (h : ∀ ls ∈ files, ∀ l ∈ ls, l ≠ []) :
     let r := runCheckMain env (files.map fun ls => Except.ok (ls.map Except.ok))
     let n := countFailed env files.flatten 0
     r.evs = allEvs env files.flatten ++ (if n > 0 then [.diag (warningLine n)] else []) ∧
@@ -187,19 +158,19 @@ theorem check_continues_partial (env : Env) (files : List (List Str))
   rw [countFailed_pos_iff]
   simp
 
-/-- … and each failing entry contributes exactly one line: a diagnostic on stderr (malformed line)
-or `<name>: FAILED` / `<name>: FAILED (<error>)` on stdout (mismatch / unreadable file); a passing
-entry is exactly an entry that parses and matches. -/
-theorem check_failures_reported (env : Env) (l : Str) (hp : Processable l) :
+/-- … and for EVERY entry: it passes exactly when it parses and matches; a failing entry
+contributes exactly one line — a diagnostic on stderr (malformed line) or `<name>: FAILED` /
+`<name>: FAILED (<error>)` on stdout (mismatch / unreadable file) — and is counted. -/
+theorem check_failures_reported (env : Env) (l : Str) :
     ((lineVerdict env l).1 = true ↔ LineMatches env l) ∧
     ((lineVerdict env l).1 = false →
       (∃ e : PErr, (lineVerdict env l).2 = [.diag ("b3sum: " ++ e.msg)]) ∨
       (∃ name, (lineVerdict env l).2 = [.out (name ++ ": FAILED")]) ∨
       (∃ name e, (lineVerdict env l).2 = [.out (name ++ ": FAILED (" ++ e ++ ")")])) := by
-  obtain ⟨s1, s2, _, s4⟩ := checkOneLine_spec env l
+  obtain ⟨s1, s2, _, _⟩ := checkOneLine_spec env l
   unfold lineVerdict
   cases hc : checkOneLine env l with
-  | panicked => exact absurd (s4.mp hc) hp.2
+  | panicked => exact absurd hc (checkOneLine_ne_panicked env l)
   | done s e =>
     simp only
     cases s with
@@ -207,19 +178,48 @@ theorem check_failures_reported (env : Env) (l : Str) (hp : Processable l) :
     | false =>
       refine ⟨by simp [s2 e hc], fun _ => checkOneLine_failed_ev hc⟩
 
-example : Processable goodLine ∧ Processable "garbage\n".toList ∧ ¬ Processable (panicLine ++ ['\n']) := by
-  refine ⟨⟨by decide, by decide⟩, ⟨by decide, by decide⟩, ?_⟩
-  intro h; exact h.2 (by decide)
+/-- a stale entry, a missing file, a malformed line (CRLF) and the former panic line, then a good
+entry: four failures are counted, the good entry is still checked, exit status 1 -/
+example :
+    let files := [[hexEncode (List.replicate 32 0xbb) ++ "  x\n".toList, hexEncode hashA ++ "  y\r\n".toList,
+                   "garbage\r\n".toList, nonAsciiHashLine ++ ['\n']], [goodLine]]
+    countFailed demoEnv files.flatten 0 = 4 ∧ (lineVerdict demoEnv goodLine).1 = true ∧
+    (runCheckMain demoEnv (files.map fun ls => Except.ok (ls.map Except.ok))).exit = 1 := by
+  decide
+
+/-- A checkfile that cannot be opened, or a `read_line` error (I/O error, or a line that is not
+valid UTF-8), makes the exit status non-zero.  (The run stops there: `Error: …` on stderr; entries
+after that point are not checked — the property requires no more than the non-zero status.) -/
+theorem check_unreadable_nonzero (env : Env) (files : List CheckSrc) (wf : WellFormed files)
+    (h : (∃ e, Except.error e ∈ files) ∨ (∃ lines e, Except.ok lines ∈ files ∧ Except.error e ∈ lines)) :
+    (runCheckMain env files).exit = 1 := by
+  have hne : (runCheckMain env files).exit ≠ 0 := by
+    intro h0
+    have hg := (check_exit_iff env files wf).mp h0
+    rcases h with ⟨e, he⟩ | ⟨lines, e, hl, he⟩
+    · obtain ⟨ls, hls, _⟩ := hg _ he
+      cases hls
+    · obtain ⟨ls, hls, hgood⟩ := hg _ hl
+      have := Except.ok.inj hls
+      subst this
+      obtain ⟨l, hl', _⟩ := hgood _ he
+      cases hl'
+  rcases check_exit_zero_or_one env files with h0 | h1
+  · exact absurd h0 hne
+  · exact h1
+
+example : (runCheckMain demoEnv [.ok [.ok goodLine, .error "stream did not contain valid UTF-8", .ok goodLine]]).exit = 1 ∧
+    (runCheckMain demoEnv [.error "No such file or directory (os error 2)", .ok [.ok goodLine]]).exit = 1 := by decide
 
 #print axioms hex_output_eq_slice
 #print axioms raw_output_eq_slice
 #print axioms hash_one_input_output
 #print axioms hash_exit_iff
 #print axioms check_exit_iff
+#print axioms check_exit_zero_or_one
 #print axioms readLines_wellFormed
-#print axioms check_continues_false
-#print axioms check_continues_false_io
-#print axioms check_continues_partial
+#print axioms check_continues
 #print axioms check_failures_reported
+#print axioms check_unreadable_nonzero
 
 end B3.B3sum
